@@ -6,7 +6,7 @@
     one-line delegations) at least Acquire.  The machine (Conc.v) has any number of threads, every
     interleaving, stale loads, relaxed RMWs continuing release sequences, extra synchronisation. *)
 From Coq Require Import List Bool Arith.
-From TV Require Import Layout SrcFacts Conc ConcProofs ConcX Mech MechProofs Extracted.
+From TV Require Import Layout SrcFacts Conc ConcProofs ConcX ConcXProofs Mech MechProofs Extracted.
 Import ListNotations.
 
 (** For every enabled schedule of every number of threads, under the orderings the source uses: no payload
@@ -33,6 +33,16 @@ Proof. split; reflexivity. Qed.
 Theorem C02_drop_protocol_as_written : p_drop Extracted.count_progs = p_drop good_progs.
 Proof. reflexivity. Qed.
 
+(** ... and those programs, interpreted one instruction per step on the view memory, are safe for EVERY schedule: any
+    number of threads, any interleaving at instruction granularity, stale loads included — no data race, no access
+    after free, no second destroy or free, no value lost at quiescence.  (Proved by a simulation into [Conc.v]:
+    ConcXProofs.xstep_sim; the statement is about the translated programs, so a change of the protocol in the source
+    changes the statement that has to be proved.) *)
+Theorem C02_protocol_as_written_is_safe :
+  forall ls s, xexec Extracted.count_progs xinit ls = Some s -> bad s = false.
+Proof. exact xsafe. Qed.
+
+
 (** Every other handle kind funnels clone and drop through Arc's: the [Clone]/[Drop] impl of every kind of the
     sequential machine is extensionally [Arc_clone] / [Arc_drop] on the same block. *)
 Theorem C02_every_kind_funnels_through_arc :
@@ -56,3 +66,4 @@ Print Assumptions C02_closed_world.
 Print Assumptions C02_every_kind_funnels_through_arc.
 Print Assumptions C02_orderings_are_necessary.
 Print Assumptions C02_drop_protocol_as_written.
+Print Assumptions C02_protocol_as_written_is_safe.
